@@ -21,31 +21,31 @@ theorem padTake_length : ∀ (r : List Byte) (n : Nat), (padTake r n).length = n
   | [], n + 1 => by simp [padTake, padTake_length [] n]
   | _ :: r, n + 1 => by simp [padTake, padTake_length r n]
 
-theorem padTake_getElem? : ∀ (r : List Byte) (n k : Nat), k < n →
+theorem padTake_get : ∀ (r : List Byte) (n k : Nat), k < n →
     (padTake r n)[k]? = some (r.getD k 0#8)
   | _, 0, k, h => by omega
   | [], n + 1, 0, _ => by simp [padTake]
   | [], n + 1, k + 1, h => by
     simp only [padTake, List.getElem?_cons_succ]
-    rw [padTake_getElem? [] n k (by omega)]; simp
+    rw [padTake_get [] n k (by omega)]; simp
   | v :: r, n + 1, 0, _ => by simp [padTake]
   | v :: r, n + 1, k + 1, h => by
     simp only [padTake, List.getElem?_cons_succ]
-    rw [padTake_getElem? r n k (by omega)]; simp
+    rw [padTake_get r n k (by omega)]; simp
 
 theorem overlay_length : ∀ (m d : List Byte), (overlay m d).length = m.length
   | m, [] => by simp [overlay]
   | [], _ :: _ => by simp [overlay]
   | _ :: ms, _ :: ds => by simp [overlay, overlay_length ms ds]
 
-theorem overlay_getElem? : ∀ (m d : List Byte) (k : Nat),
+theorem overlay_get : ∀ (m d : List Byte) (k : Nat),
     (overlay m d)[k]? = if k < d.length ∧ k < m.length then d[k]? else m[k]?
   | m, [], k => by simp [overlay]
   | [], _ :: _, k => by simp [overlay]
   | x :: ms, y :: ds, 0 => by simp [overlay]
   | x :: ms, y :: ds, k + 1 => by
     simp only [overlay, List.getElem?_cons_succ, List.length_cons, Nat.add_lt_add_iff_right]
-    exact overlay_getElem? ms ds k
+    exact overlay_get ms ds k
 
 /-- the bytes of `writeToMemory` -/
 theorem writeToMemory_spec (mem : List Byte) (lo : Int) (data : List Byte) (hlo : 0 ≤ lo) :
@@ -78,7 +78,7 @@ theorem writeToMemory_spec (mem : List Byte) (lo : Int) (data : List Byte) (hlo 
         · rw [List.getElem?_append_left (by omega)]
           have : ¬ (lo ≤ (x : Int) ∧ (x : Int) < lo + ((v :: vs).length : Nat) ∧ x < mem.length) := by omega
           simp only [this, if_false, List.getElem?_take, hx, if_true]
-        · rw [List.getElem?_append_right (by omega), hlen, overlay_getElem?]
+        · rw [List.getElem?_append_right (by omega), hlen, overlay_get]
           simp only [List.length_drop, List.getElem?_drop]
           have e : lo.toNat + (x - lo.toNat) = x := by omega
           by_cases hc : lo ≤ (x : Int) ∧ (x : Int) < lo + ((v :: vs).length : Nat) ∧ x < mem.length
@@ -86,6 +86,32 @@ theorem writeToMemory_spec (mem : List Byte) (lo : Int) (data : List Byte) (hlo 
             simp only [this, hc, and_self, if_true]
           · have : ¬ (x - lo.toNat < (v :: vs).length ∧ x - lo.toNat < mem.length - lo.toNat) := by omega
             simp only [this, hc, if_false, e]
+
+/-! ### `int32` upper bounds -/
+
+theorem wrap32_id (x : Int) (h1 : -(2 ^ 31) ≤ x) (h2 : x < 2 ^ 31) : wrap32 x = x := by
+  unfold wrap32
+  rw [BitVec.toInt_ofInt]
+  apply Int.bmod_eq_of_le <;> omega
+
+theorem wrap32_le (x : Int) (h1 : -(2 ^ 31) ≤ x) : wrap32 x ≤ x := by
+  unfold wrap32
+  rw [BitVec.toInt_ofInt]
+  by_cases h : x < 2 ^ 31
+  · rw [Int.bmod_eq_of_le (by omega) (by omega)]; omega
+  · have := Int.bmod_lt (x := x) (m := 2 ^ 32) (by decide)
+    omega
+
+/-- the head's upper bound is already an `int32`: nothing to re-establish -/
+theorem fixHead_id (c : Cache) (l : Line) (ls : List Line) (hc : c.lines = l :: ls) (h : wrap32 l.hi = l.hi) :
+    fixHead c = c := by
+  unfold fixHead
+  rw [hc]
+  simp only [h]
+  cases c
+  simp only at hc
+  subst hc
+  rfl
 
 /-! ### alignment -/
 
@@ -185,6 +211,10 @@ theorem Coh.congr_mem {ls ls' : List Line} {mem flat : List Byte} (h : Coh ls me
     cached := fun l hl => h.cached l ((hm l).mp hl),
     uncached := fun x hx hu => h.uncached x hx (fun l hl => hu l ((hm l).mpr hl)) }
 
+/-- once memory itself is the flat memory (after a flush) the pair is still coherent -/
+theorem Coh.flushed {ls : List Line} {mem flat : List Byte} (h : Coh ls mem flat) : Coh ls flat flat :=
+  { len := rfl, cached := h.cached, uncached := fun _ _ _ => rfl }
+
 /-- the view: the byte of the first resident line that covers `x`, else the memory byte -/
 def view (lines : List Line) (mem : List Byte) (x : Nat) : Option Byte :=
   match lines.find? (fun l => l.covers x) with
@@ -203,6 +233,36 @@ theorem Coh.view_eq {ls : List Line} {mem flat : List Byte} (h : Coh ls mem flat
   | none =>
     have := List.find?_eq_none.mp hf
     exact h.uncached x hx (fun l hl => by simpa using this l hl)
+
+/-- conversely, under the structural invariant a pair whose view is the flat memory is coherent
+(a covered byte is covered by exactly one line, so the first covering line is THE covering line) -/
+theorem coh_of_view {L n : Nat} (hL : 0 < L) {c : Cache} {mem flat : List Byte} (hw : DWf L n c)
+    (hlen : mem.length = flat.length) (hv : ∀ x : Nat, x < flat.length → view c.lines mem x = flat[x]?) :
+    Coh c.lines mem flat := by
+  refine { len := hlen, cached := ?_, uncached := ?_ }
+  · intro l hl x hc hx
+    have := hv x hx
+    unfold view at this
+    cases hf : c.lines.find? (fun l => l.covers x) with
+    | some l' =>
+      rw [hf] at this
+      have hm' := List.mem_of_find?_eq_some hf
+      have hc' := List.find?_some hf
+      have e : l' = l := hw.unique hm' hl
+        ((((hw.lines l' hm').covers_iff hL x (by omega)).mp hc').trans (((hw.lines l hl).covers_iff hL x (by omega)).mp hc).symm)
+      rw [← e]; exact this
+    | none =>
+      have hnone := List.find?_eq_none.mp hf l hl
+      simp only [hc, not_true_eq_false] at hnone
+  · intro x hx hu
+    have := hv x hx
+    unfold view at this
+    have hf : c.lines.find? (fun l => l.covers x) = none := by
+      apply List.find?_eq_none.mpr
+      intro l hl
+      simp [hu l hl]
+    rw [hf] at this
+    exact this
 
 /-! ### `Get` and the `getFromL1D` loop -/
 
@@ -224,7 +284,7 @@ theorem get_hit {c : Cache} {mem flat : List Byte} (hc : Coh c.lines mem flat)
   simp only [hs, Line.at, h1, h2]
   rfl
 
-theorem get_miss' {c : Cache} {a : Int} (hs : ∀ y ∈ c.lines, y.covers a = false) : LineCache.get c a = .ok (none, c) := by
+theorem get_miss_lines {c : Cache} {a : Int} (hs : ∀ y ∈ c.lines, y.covers a = false) : LineCache.get c a = .ok (none, c) := by
   unfold LineCache.get
   cases h : splitAt a c.lines with
   | none => rfl
@@ -277,7 +337,7 @@ theorem getAll_hit {L n : Nat} (hL : 0 < L) {mem flat : List Byte} (b : Int) :
 theorem getAll_miss {c : Cache} (a0 : Word) (as : List Word) (hs : ∀ y ∈ c.lines, y.covers a0.toInt = false) :
     getAll c (a0 :: as) = .ok (none, c) := by
   unfold getAll
-  simp only [get_miss' hs, bind, Except.bind]
+  simp only [get_miss_lines hs, bind, Except.bind]
   rfl
 
 /-! ### line fill: `fetchCacheLine` + `pushLineToL1D` (with the victim's write-back) -/
@@ -301,7 +361,7 @@ theorem fetchCacheLine_ok (cfg : Config) (L : Nat) (hcfg : cfg.l1DLineSize = L) 
 /-- the fetched line holds the memory bytes of its block (and zeros past the end of memory) -/
 theorem fetched_bytes (mem : List Byte) (b L x : Nat) (h1 : b ≤ x) (h2 : x < b + L) (h3 : x < mem.length) :
     (padTake (mem.drop b) L)[x - b]? = mem[x]? := by
-  rw [padTake_getElem? _ _ _ (by omega)]
+  rw [padTake_get _ _ _ (by omega)]
   have : b + (x - b) = x := by omega
   simp only [List.getD_eq_getElem?_getD, List.getElem?_drop, this]
   rw [List.getElem?_eq_getElem h3]; rfl
@@ -360,12 +420,13 @@ and pushing it — evicting and writing back the last line when the cache is ful
 structural invariant and the coherence with the SAME flat memory, and makes the block resident. -/
 theorem fill_ok {cfg : Config} {L n : Nat} (hcfg : cfg.l1DLineSize = L) (hL : 0 < L) (hn : 0 < n)
     {u : Mmu} {mem flat : List Byte} (hw : DWf L n u.l1d) (hc : Coh u.l1d.lines mem flat)
-    (a0 : Word) (h0 : 0 ≤ a0.toInt) (hmiss : ∀ y ∈ u.l1d.lines, y.covers a0.toInt = false) :
+    (a0 : Word) (h0 : 0 ≤ a0.toInt) (hmiss : ∀ y ∈ u.l1d.lines, y.covers a0.toInt = false)
+    (hend : base L a0.toInt + L < 2 ^ 31) :
     ∃ line u' mem', fetchCacheLine cfg mem a0 = .ok line ∧ pushLineToL1D cfg u mem a0 line = .ok (u', mem') ∧
       u'.l1i = u.l1i ∧ DWf L n u'.l1d ∧ Coh u'.l1d.lines mem' flat ∧ (∃ l ∈ u'.l1d.lines, l.lo = base L a0.toInt) ∧
       (∀ y ∈ u'.l1d.lines, y ∈ u.l1d.lines ∨ y.lo = base L a0.toInt) := by
   obtain ⟨hb0, hb1, hb2, hb3⟩ := base_spec L a0.toInt (by omega) h0
-  generalize hbdef : base (L : Int) a0.toInt = b at hb0 hb1 hb2 hb3
+  generalize hbdef : base (L : Int) a0.toInt = b at hb0 hb1 hb2 hb3 hend
   have hfetch := fetchCacheLine_ok cfg L hcfg hL mem a0 h0
   rw [hbdef] at hfetch
   generalize hline : padTake (mem.drop b.toNat) L = line at hfetch
@@ -412,6 +473,12 @@ theorem fill_ok {cfg : Config} {L n : Nat} (hcfg : cfg.l1DLineSize = L) (hL : 0 
   unfold pushLineToL1D
   rw [hcfg, alignDown_ok _ _ (by omega), hbdef]
   simp only [bind, Except.bind, pushLineWithEvictionWarning]
+  have hfix : fixHead ({ u.l1d with lines := LineCache.newLine u.l1d b line :: u.l1d.lines } : Cache) =
+      { u.l1d with lines := LineCache.newLine u.l1d b line :: u.l1d.lines } := by
+    apply fixHead_id _ _ _ rfl
+    apply wrap32_id
+    · show -(2 ^ 31) ≤ b + (u.l1d.lineLength : Int); omega
+    · show b + (u.l1d.lineLength : Int) < 2 ^ 31; rw [hw.lineLength]; exact hend
   by_cases hfull : (LineCache.newLine u.l1d b line :: u.l1d.lines).length > u.l1d.numberOfLines
   · -- the cache overflows: the last line is the victim
     simp only [hfull, if_true]
@@ -444,7 +511,7 @@ theorem fill_ok {cfg : Config} {L n : Nat} (hcfg : cfg.l1DLineSize = L) (hL : 0 
     refine ⟨{ u with l1d := { u.l1d with lines := pre ++ post } }, mem', hfetch, ?_, rfl, ?_, ?_, ?_, ?_⟩
     · have hlast' : (LineCache.newLine u.l1d b line :: u.l1d.lines).getLast? = some x := hlast
       have hs' : splitAt x.lo (LineCache.newLine u.l1d b line :: u.l1d.lines) = some (pre, x, post) := hs
-      simp only [hlast', evictCacheLine, hs', hat, hwb, bind, Except.bind]
+      simp only [hlast', hfix, evictCacheLine, hs', hat, hwb, bind, Except.bind]
       rfl
     · have hlen : (nl :: u.l1d.lines).length = pre.length + post.length + 1 := by
         rw [hsplit]; simp; omega
@@ -470,7 +537,7 @@ theorem fill_ok {cfg : Config} {L n : Nat} (hcfg : cfg.l1DLineSize = L) (hL : 0 
       · exact Or.inr rfl
       · exact Or.inl h
   · -- room left
-    simp only [hfull, if_false]
+    simp only [hfull, if_false, hfix]
     refine ⟨{ u with l1d := { u.l1d with lines := nl :: u.l1d.lines } }, mem, hfetch, rfl, rfl, ?_, hcoh1, ⟨nl, by simp, rfl⟩, ?_⟩
     · exact { lineLength := hw.lineLength, numberOfLines := hw.numberOfLines, lines := hlines1, distinct := hdist1,
               count := by rw [← hw.numberOfLines]; exact Nat.le_of_not_gt hfull }
@@ -482,13 +549,13 @@ theorem fill_ok {cfg : Config} {L n : Nat} (hcfg : cfg.l1DLineSize = L) (hL : 0 
 /-! ### the callers' contract unfolded -/
 
 theorem loadOk_spec {L : Int} {memLen : Nat} {a0 : Word} {as : List Word} (h : loadOk L memLen (a0 :: as) = true) :
-    ∀ a ∈ a0 :: as, 0 ≤ a.toInt ∧ a.toInt.toNat < memLen ∧ base L a.toInt = base L a0.toInt := by
+    ∀ a ∈ a0 :: as, 0 ≤ a.toInt ∧ a.toInt.toNat < memLen ∧ base L a.toInt = base L a0.toInt ∧ base L a.toInt + L < 2 ^ 31 := by
   intro a ha
   unfold loadOk at h
   have := List.all_eq_true.mp h a ha
   simp only [Bool.and_eq_true, decide_eq_true_eq] at this
-  obtain ⟨⟨h1, h2⟩, h3⟩ := this
-  exact ⟨h1, by omega, h3⟩
+  obtain ⟨⟨⟨h1, h2⟩, h3⟩, h4⟩ := this
+  exact ⟨h1, by omega, h3, h4⟩
 
 theorem consecutive_spec (a0 : Int) : ∀ (chs : List (Word × Byte)) (k : Nat), consecutive a0 chs k = true →
     ∀ (i : Nat) (h : i < chs.length), (chs[i]'h).1.toInt = a0 + k + i
@@ -504,7 +571,8 @@ theorem consecutive_spec (a0 : Int) : ∀ (chs : List (Word × Byte)) (k : Nat),
 
 theorem storeOk_spec {L : Int} {memLen : Nat} {chs : List (Word × Byte)} (h : storeOk L memLen chs = true) :
     ∃ p ps, chs = p :: ps ∧ consecutive p.1.toInt chs 0 = true ∧
-      ∀ a ∈ chs.map (·.1), 0 ≤ a.toInt ∧ a.toInt.toNat < memLen ∧ base L a.toInt = base L p.1.toInt := by
+      ∀ a ∈ chs.map (·.1), 0 ≤ a.toInt ∧ a.toInt.toNat < memLen ∧ base L a.toInt = base L p.1.toInt ∧
+        base L a.toInt + L < 2 ^ 31 := by
   cases chs with
   | nil => simp [storeOk] at h
   | cons p ps =>
@@ -633,7 +701,7 @@ theorem write_cached_ok {L n : Nat} (hL : 0 < L) {u : Mmu} {mem flat : List Byte
   have hlb0 := hlb p (by simp)
   have hcov0 : l.covers p.1.toInt = true := (hlwf.covers_iff hL _ ha0).mpr hlb0
   have hcovl : l.lo ≤ p.1.toInt + ps.length ∧ p.1.toInt + ps.length < l.lo + L :=
-    (block_iff_base L l.lo _ (by omega) hlast.1 hlwf.aligned).mpr (by rw [hlast.2.2, hlb0])
+    (block_iff_base L l.lo _ (by omega) hlast.1 hlwf.aligned).mpr (by rw [hlast.2.2.1, hlb0])
   have hcov0' := (Proofs.LC.covers_iff l _).mp hcov0
   obtain ⟨pre, x, post, hs⟩ := splitAt_isSome ⟨l, hlm, hcov0⟩
   obtain ⟨hsplit, hxcov, _⟩ := splitAt_some hs
@@ -752,7 +820,8 @@ theorem write_cached_ok {L n : Nat} (hL : 0 < L) {u : Mmu} {mem flat : List Byte
 /-- every address of a well-formed store's run has the base of the first one -/
 theorem run_base {L : Int} {memLen : Nat} {p : Word × Byte} {ps : List (Word × Byte)}
     (hcons : consecutive p.1.toInt (p :: ps) 0 = true)
-    (hall : ∀ a ∈ (p :: ps).map (·.1), 0 ≤ a.toInt ∧ a.toInt.toNat < memLen ∧ base L a.toInt = base L p.1.toInt)
+    (hall : ∀ a ∈ (p :: ps).map (·.1), 0 ≤ a.toInt ∧ a.toInt.toNat < memLen ∧ base L a.toInt = base L p.1.toInt ∧
+      base L a.toInt + L < 2 ^ 31)
     (z : Nat) (hz : p.1.toInt ≤ (z : Int) ∧ (z : Int) < p.1.toInt + ((p :: ps).length : Nat)) :
     base L z = base L p.1.toInt ∧ z < memLen := by
   have hi : ((z : Int) - p.1.toInt).toNat < (p :: ps).length := by omega
@@ -763,7 +832,7 @@ theorem run_base {L : Int} {memLen : Nat} {p : Word × Byte} {ps : List (Word ×
   rw [hidx] at this
   have e : p.1.toInt + ((0 : Nat) : Int) + ((((z : Int) - p.1.toInt).toNat : Nat) : Int) = (z : Int) := by omega
   rw [e] at this
-  exact ⟨this.2.2, by omega⟩
+  exact ⟨this.2.2.1, by omega⟩
 
 /-- **uncached store**: when the line of a well-formed store is not resident, writing the bytes straight
 to memory keeps the pair coherent with the flat memory after the store; the cache is untouched. -/
@@ -822,7 +891,8 @@ theorem getFromL1D_hit {L n : Nat} (hL : 0 < L) {u : Mmu} {mem flat : List Byte}
     ∃ bytes u', getFromL1D u (a0 :: as) = .ok (some bytes, u') ∧ u'.l1i = u.l1i ∧ DWf L n u'.l1d ∧
       Coh u'.l1d.lines mem flat ∧ u'.l1d.lines.Perm u.l1d.lines ∧
       (a0 :: as).mapM (Model.Seq.readMem flat) = some bytes := by
-  obtain ⟨bytes, ls, hg, hp, hm⟩ := getAll_hit hL (base L a0.toInt) (a0 :: as) u.l1d hw hc hres (loadOk_spec hok)
+  obtain ⟨bytes, ls, hg, hp, hm⟩ := getAll_hit hL (base L a0.toInt) (a0 :: as) u.l1d hw hc hres
+    (fun a ha => ⟨(loadOk_spec hok a ha).1, (loadOk_spec hok a ha).2.1, (loadOk_spec hok a ha).2.2.1⟩)
   refine ⟨bytes, { u with l1d := { u.l1d with lines := ls } }, ?_, rfl, hw.perm ls hp, hc.congr_mem (fun y => hp.mem_iff), hp, hm⟩
   unfold getFromL1D
   simp only [hg, bind, Except.bind]
@@ -904,5 +974,188 @@ theorem flush_ok {cfg : Config} {L n : Nat} (hcfg : cfg.l1DLineSize = L) (hL : 0
   unfold flush LineCache.lines
   rw [hf, hc'.nil_eq]
   simp
+
+/-! ### the literal Go loops (`Model/Mmu.lean`, `…Lit`) compute what the one-pass definitions compute -/
+
+theorem fetchFromLit_eq (mem : List Byte) (lo : Nat) : ∀ (n k : Nat),
+    fetchFromLit mem lo k n = .ok (padTake (mem.drop (lo + k)) n)
+  | 0, k => by simp [fetchFromLit, padTake]; rfl
+  | n + 1, k => by
+    unfold fetchFromLit
+    have ih := fetchFromLit_eq mem lo n (k + 1)
+    by_cases h : ((lo : Int) + (k : Int)) ≥ (mem.length : Int)
+    · simp only [h, if_true, ih, bind, Except.bind]
+      have h1 : mem.drop (lo + k) = [] := List.drop_eq_nil_iff.mpr (by omega)
+      have h2 : mem.drop (lo + (k + 1)) = [] := List.drop_eq_nil_iff.mpr (by omega)
+      rw [h1, h2]
+      rfl
+    · have hlt : lo + k < mem.length := by omega
+      have hm : memAt mem ((lo : Int) + (k : Int)) = .ok mem[lo + k] := by
+        unfold memAt
+        have : ¬ ((lo : Int) + (k : Int) < 0) := by omega
+        have e : ((lo : Int) + (k : Int)).toNat = lo + k := by omega
+        simp only [this, if_false, e, List.getElem?_eq_getElem hlt]; rfl
+      simp only [h, if_false, hm, ih, bind, Except.bind]
+      have h1 : mem.drop (lo + k) = mem[lo + k] :: mem.drop (lo + (k + 1)) := by
+        rw [List.drop_eq_getElem_cons hlt]; rfl
+      rw [h1]
+      rfl
+
+/-- `fetchCacheLine` is the literal loop of mmu.go -/
+theorem fetchCacheLine_literal (cfg : Config) (mem : List Byte) (a : Word) :
+    fetchCacheLineLit cfg mem a = fetchCacheLine cfg mem a := by
+  unfold fetchCacheLineLit fetchCacheLine
+  cases ha : LineCache.alignDown a.toInt cfg.l1DLineSize with
+  | error f => rfl
+  | ok lo =>
+    simp only [bind, Except.bind]
+    by_cases h1 : cfg.l1DLineSize < 0
+    · simp only [h1, if_true]
+    · simp only [h1, if_false]
+      by_cases h2 : cfg.l1DLineSize = 0
+      · simp only [h2, if_true, Int.toNat_zero, fetchFromLit]
+      · simp only [h2, if_false]
+        have hpos : 0 < cfg.l1DLineSize.toNat := by omega
+        by_cases h3 : lo < 0
+        · simp only [h3, if_true]
+          obtain ⟨n, hn⟩ : ∃ n, cfg.l1DLineSize.toNat = n + 1 := ⟨cfg.l1DLineSize.toNat - 1, by omega⟩
+          rw [hn]
+          unfold fetchFromLit
+          have hc : ¬ (lo + ((0 : Nat) : Int) ≥ (mem.length : Int)) := by omega
+          have hm : memAt mem (lo + ((0 : Nat) : Int)) = .error (.panic "index out of range") := by
+            unfold memAt
+            have : lo + ((0 : Nat) : Int) < 0 := by omega
+            simp only [this, if_true]; rfl
+          simp only [hc, if_false, hm, bind, Except.bind]
+          rfl
+        · simp only [h3, if_false]
+          obtain ⟨lo', rfl⟩ : ∃ n : Nat, lo = (n : Int) := ⟨lo.toNat, by omega⟩
+          rw [fetchFromLit_eq mem lo' _ 0]
+          simp only [Nat.add_zero, Int.toNat_natCast]
+          rfl
+
+/-- the literal loop of `writeToMemory` for a non-negative base -/
+theorem writeToMemoryLit_spec (lo : Nat) : ∀ (vs mem : List Byte) (i : Nat),
+    ∃ mem', writeToMemoryLit mem lo vs i = .ok mem' ∧ mem'.length = mem.length ∧
+      ∀ x : Nat, mem'[x]? = if lo + i ≤ x ∧ x < lo + i + vs.length ∧ x < mem.length then vs[x - (lo + i)]? else mem[x]?
+  | [], mem, i => ⟨mem, rfl, rfl, fun x => by
+      have : ¬ (lo + i ≤ x ∧ x < lo + i + ([] : List Byte).length ∧ x < mem.length) := by simp; omega
+      simp only [this, if_false]⟩
+  | v :: vs, mem, i => by
+    unfold writeToMemoryLit
+    by_cases h1 : ((lo : Int) + (i : Int)) ≥ (mem.length : Int)
+    · simp only [h1, if_true]
+      refine ⟨mem, rfl, rfl, fun x => ?_⟩
+      have : ¬ (lo + i ≤ x ∧ x < lo + i + (v :: vs).length ∧ x < mem.length) := by omega
+      simp only [this, if_false]
+    · have h2 : ¬ ((lo : Int) + (i : Int) < 0) := by omega
+      simp only [h1, h2, if_false]
+      have e : ((lo : Int) + (i : Int)).toNat = lo + i := by omega
+      rw [e]
+      obtain ⟨mem', h3, h4, h5⟩ := writeToMemoryLit_spec lo vs (mem.set (lo + i) v) (i + 1)
+      refine ⟨mem', h3, by rw [h4]; simp, fun x => ?_⟩
+      rw [h5 x]
+      have hl : (mem.set (lo + i) v).length = mem.length := List.length_set
+      rw [hl]
+      by_cases hx : x = lo + i
+      · subst hx
+        have c1 : ¬ (lo + (i + 1) ≤ lo + i ∧ lo + i < lo + (i + 1) + vs.length ∧ lo + i < mem.length) := by omega
+        have c2 : lo + i ≤ lo + i ∧ lo + i < lo + i + (v :: vs).length ∧ lo + i < mem.length := by
+          simp only [List.length_cons]; omega
+        rw [if_neg c1, if_pos c2, List.getElem?_set_self (by omega), Nat.sub_self, List.getElem?_cons_zero]
+      · by_cases hr : lo + (i + 1) ≤ x ∧ x < lo + (i + 1) + vs.length ∧ x < mem.length
+        · have c2 : lo + i ≤ x ∧ x < lo + i + (v :: vs).length ∧ x < mem.length := by
+            simp only [List.length_cons]; omega
+          rw [if_pos hr, if_pos c2]
+          have : x - (lo + i) = (x - (lo + (i + 1))) + 1 := by omega
+          rw [this, List.getElem?_cons_succ]
+        · have c2 : ¬ (lo + i ≤ x ∧ x < lo + i + (v :: vs).length ∧ x < mem.length) := by
+            simp only [List.length_cons]; omega
+          rw [if_neg hr, if_neg c2, List.getElem?_set_ne (by omega)]
+
+/-- `writeToMemory` is the literal loop of mmu.go -/
+theorem writeToMemory_literal (mem : List Byte) (lo : Int) (data : List Byte) :
+    writeToMemoryLit mem lo data 0 = writeToMemory mem lo data := by
+  cases data with
+  | nil => rfl
+  | cons v vs =>
+    by_cases hlo : 0 ≤ lo
+    · obtain ⟨m1, h1, h2, h3⟩ := writeToMemoryLit_spec lo.toNat (v :: vs) mem 0
+      obtain ⟨m2, g1, g2, g3⟩ := writeToMemory_spec mem lo (v :: vs) hlo
+      have e : lo = ((lo.toNat : Nat) : Int) := by omega
+      rw [g1]
+      rw [e]
+      rw [h1]
+      congr 1
+      apply List.ext_getElem?
+      intro x
+      rw [h3 x, g3 x]
+      by_cases hc : lo.toNat + 0 ≤ x ∧ x < lo.toNat + 0 + (v :: vs).length ∧ x < mem.length
+      · have hc' : lo ≤ (x : Int) ∧ (x : Int) < lo + ((v :: vs).length : Nat) ∧ x < mem.length := by omega
+        rw [if_pos hc, if_pos hc', Nat.add_zero]
+      · have hc' : ¬ (lo ≤ (x : Int) ∧ (x : Int) < lo + ((v :: vs).length : Nat) ∧ x < mem.length) := by omega
+        rw [if_neg hc, if_neg hc']
+    · unfold writeToMemoryLit writeToMemory
+      have c1 : ¬ (lo + ((0 : Nat) : Int) ≥ (mem.length : Int)) := by omega
+      have c2 : lo + ((0 : Nat) : Int) < 0 := by omega
+      have c3 : ¬ (lo ≥ (mem.length : Int)) := by omega
+      have c4 : lo < 0 := by omega
+      simp only [c1, c2, c3, c4, if_true, if_false]
+
+/-- writing the same bytes at the same place again changes nothing -/
+theorem writeToMemory_idem (mem mem' : List Byte) (lo : Int) (data : List Byte)
+    (h : writeToMemory mem lo data = .ok mem') : writeToMemory mem' lo data = .ok mem' := by
+  by_cases hlo : 0 ≤ lo
+  · obtain ⟨m1, h1, h2, h3⟩ := writeToMemory_spec mem lo data hlo
+    rw [h] at h1; injection h1 with h1; subst h1
+    obtain ⟨m2, g1, g2, g3⟩ := writeToMemory_spec mem' lo data hlo
+    rw [g1]
+    congr 1
+    apply List.ext_getElem?
+    intro x
+    rw [g3 x, h3 x, h2]
+    by_cases hc : lo ≤ (x : Int) ∧ (x : Int) < lo + (data.length : Nat) ∧ x < mem.length
+    · simp only [hc, and_self, if_true]
+    · simp only [hc, if_false]
+  · cases data with
+    | nil => rfl
+    | cons v vs =>
+      unfold writeToMemory at h
+      have c3 : ¬ (lo ≥ (mem.length : Int)) := by omega
+      have c4 : lo < 0 := by omega
+      simp only [c3, c4, if_true, if_false] at h
+      cases h
+
+/-- the literal inner loop of `flush`: `k` identical `writeToMemory` calls -/
+def repeatWrite (lo : Int) (data : List Byte) : Nat → List Byte → M (List Byte)
+  | 0, mem => pure mem
+  | k + 1, mem => do
+    let m ← writeToMemory mem lo data
+    repeatWrite lo data k m
+
+theorem repeatWrite_fixed (lo : Int) (data mem : List Byte) (h : writeToMemory mem lo data = .ok mem) :
+    ∀ k, repeatWrite lo data k mem = .ok mem
+  | 0 => rfl
+  | k + 1 => by
+    unfold repeatWrite
+    simp only [h, bind, Except.bind]
+    exact repeatWrite_fixed lo data mem h k
+
+/-- `flushLine` (one write when the line size is positive) is the literal loop of `l1DCacheLineSize` writes -/
+theorem flushLine_literal (cfg : Config) (mem : List Byte) (l : Line) :
+    repeatWrite l.lo l.data cfg.l1DLineSize.toNat mem = flushLine cfg mem l := by
+  unfold flushLine
+  by_cases h : cfg.l1DLineSize ≤ 0
+  · have : cfg.l1DLineSize.toNat = 0 := by omega
+    simp only [h, if_true, this, repeatWrite]
+  · simp only [h, if_false]
+    obtain ⟨k, hk⟩ : ∃ k, cfg.l1DLineSize.toNat = k + 1 := ⟨cfg.l1DLineSize.toNat - 1, by omega⟩
+    rw [hk]
+    unfold repeatWrite
+    cases hw : writeToMemory mem l.lo l.data with
+    | error f => rfl
+    | ok m1 =>
+      simp only [bind, Except.bind]
+      exact repeatWrite_fixed l.lo l.data m1 (writeToMemory_idem mem m1 l.lo l.data hw) k
 
 end Proofs.Mmu
